@@ -15,7 +15,7 @@ from . import build as vbuild
 
 VERIF = vbuild.VERIF
 NPROC = int(os.environ.get("VF_JOBS", "16"))
-SCRATCH = os.path.join(VERIF, "build", "run")
+SCRATCH = os.path.join(vbuild.BUILD, "run")
 
 ASAN_ENV = {
     "ASAN_OPTIONS": "abort_on_error=1:detect_leaks=0:allocator_may_return_null=1:detect_stack_use_after_return=1:"
